@@ -128,14 +128,24 @@ func DataKeyRange() (minKey, maxKey Key) {
 	var minID, maxID dvid.InstanceID
 	minID, maxID = 0, dvid.MaxInstanceID
 	minKey = append([]byte{dataKeyPrefix}, minID.Bytes()...)
-	maxKey = append([]byte{dataKeyPrefix}, maxID.Bytes()...)
+	maxKey = maxInstanceKey(maxID)
 	return minKey, maxKey
+}
+
+// maxInstanceKey returns a key that is greater than every key of the given instance and
+// less than the first key of the next instance (or of the next key class for the last id,
+// where id+1 would wrap around).
+func maxInstanceKey(id dvid.InstanceID) Key {
+	if id == dvid.MaxInstanceID {
+		return Key([]byte{dataKeyPrefix + 1})
+	}
+	return append([]byte{dataKeyPrefix}, (id + 1).Bytes()...)
 }
 
 // DataInstanceKeyRange returns the min and max Key across all keys for a data instance.
 func DataInstanceKeyRange(d dvid.InstanceID) (minKey, maxKey Key) {
 	minKey = append([]byte{dataKeyPrefix}, d.Bytes()...)
-	maxKey = append([]byte{dataKeyPrefix}, (d + 1).Bytes()...) // still less than first key of next instance
+	maxKey = maxInstanceKey(d) // still less than first key of next instance
 	return minKey, maxKey
 }
 
@@ -468,8 +478,7 @@ func (ctx *DataContext) TKeyClassRange(c TKeyClass) (min, max Key) {
 func (ctx *DataContext) KeyRange() (min, max Key) {
 	id := ctx.data.InstanceID()
 	min = append([]byte{dataKeyPrefix}, id.Bytes()...)
-	id++
-	max = append([]byte{dataKeyPrefix}, id.Bytes()...)
+	max = maxInstanceKey(id)
 	return min, max
 }
 
@@ -479,8 +488,7 @@ func MinDataKey() Key {
 }
 
 func MaxDataKey() Key {
-	var maxInstanceID dvid.InstanceID = dvid.MaxInstanceID
-	return append([]byte{dataKeyPrefix}, maxInstanceID.Bytes()...)
+	return maxInstanceKey(dvid.MaxInstanceID)
 }
 
 // TKeyRange returns min and max type-specific keys.  The max key is not guaranteed to be the theoretical maximum TKey but
